@@ -161,21 +161,20 @@ func VerifC01History() {
 }
 
 // verifC01schedule makes every mutex acquisition a scheduling decision: before taking the
-// lock the calling goroutine may let the other goroutines run (up to `deferrals` times; they
-// run until their own next acquisition decision, until they block or poll). All accesses to
-// the pipe's shared fields happen inside critical sections of its one mutex, so the
-// interleavings of critical sections are the interleavings that matter; code between two
-// acquisitions is goroutine-local. (The engine's own rt.SymSched(true) also forks at the
-// `select` on the never-cancelled context and at every poll, which multiplies the schedules
-// by a factor of about 10^4 for the smallest configuration without adding behaviours.)
-func verifC01schedule(deferrals int) {
+// lock, the engine chooses which runnable goroutine continues (a recorded, exhaustively
+// explored decision). All accesses to the pipe's shared fields happen inside critical
+// sections of its one mutex, so the interleavings of critical sections are the
+// interleavings that matter; code between two acquisitions is goroutine-local.
+// (rt.SymSched(true) for the whole run would also fork at the `select` on the
+// never-cancelled context and at every poll, which multiplies the schedules by about 10^3
+// for the smallest configuration without adding behaviours.)
+var verifC01zero sync.WaitGroup
+
+func verifC01schedule() {
 	rt.Stub("(*sync.Mutex).Lock", func(m *sync.Mutex) {
-		for d := 0; d < deferrals; d++ {
-			if rt.Choice("defer", 2) == 0 {
-				break
-			}
-			rt.Yield()
-		}
+		rt.SymSched(true)
+		verifC01zero.Wait() // counter is zero: returns at once; under the engine a scheduling decision
+		rt.SymSched(false)
 		for !m.TryLock() {
 			rt.Yield()
 		}
@@ -190,7 +189,7 @@ func verifC01schedule(deferrals int) {
 func VerifC01Threads() {
 	nw, chunks, clen, rmax, max := rt.Param("writers"), rt.Param("chunks"), rt.Param("len"), rt.Param("r"), rt.Param("max")
 	s := verifC01new(max)
-	verifC01schedule(rt.Param("defer"))
+	verifC01schedule()
 
 	var (
 		wg       sync.WaitGroup
